@@ -387,6 +387,10 @@ theorem pin_opcodeLengths_spec :
     Generated.C13.opcodeLengths = (List.range 256).map (fun op => match opKind op with
       | .plain => (1 : Int) | .direct n => (n : Int) + 1 | .pushdata k => -(k : Int)) := by decide
 
+theorem pin_serializedHeightVersion (v : Int) :
+    shouldHaveSerializedBlockHeight v = decide (v ≥ Generated.C13.serializedHeightVersion) := by
+  simp [shouldHaveSerializedBlockHeight, Generated.C13.serializedHeightVersion]
+
 theorem pin_weight_consts :
     Generated.C13.witnessScaleFactor = (WITNESS_SCALE_FACTOR : Int) ∧ Generated.C13.blockHeaderLen = 80 ∧
     Generated.C13.maxBlockWeight = 4000000 ∧ Generated.C13.maxBlockSigOpsCost = 80000 := by decide
